@@ -12,8 +12,8 @@ use serde_json::{json, Value as J};
 
 const P: &str = "C05";
 
-pub const W_KEYS: Weights = Weights { create: 4, drop: 1, insert: 14, update: 16, delete: 8, select: 1, wstream: 0, rstream: 0, summary: 0, sum_cp: 0, db_cp: 0, flush: 1, reopen: 5 };
-pub const KEYS: Profile = Profile { name: "keys", allow_empty: true, allow_key_update: true, allow_long: true, codepages: false, non_ascii: true, try_invalid: true };
+pub const W_KEYS: Weights = Weights { create: 4, drop: 1, insert: 14, update: 16, delete: 8, select: 1, wstream: 0, rstream: 0, summary: 0, sum_cp: 0, db_cp: 2, flush: 1, reopen: 5 };
+pub const KEYS: Profile = Profile { name: "keys", allow_empty: true, allow_key_update: true, allow_long: true, codepages: true, non_ascii: true, try_invalid: true };
 
 /// The invariant on one table as reported by the API.
 pub fn table_invariant(name: &str, cols: &[ColDef], rows: &[Vec<V>]) -> Result<(), (String, String)> {
@@ -108,7 +108,7 @@ pub fn check_seq(case: &SeqCase, st: &mut Stats) -> Check {
 pub fn run(ctx: &Ctx) -> Report {
     let mut rep = Report::new(
         "exploration",
-        "late-bound operation sequences on library-created packages weighted towards updates that assign primary-key columns (to a constant, so that rows collide; to values that reorder), batch inserts in arbitrary order, delete/insert cycles, nullable and empty-string keys, composite keys, with reopen points; invariant after every step and after every reopen, for every user table, from the API-reported schema and rows alone: key tuples pairwise distinct (modulo ''==null), rows ascending, every cell valid for its column by the reference validity predicate. Non-trivial = the sequence contains an update of a key column or a batch insert of >= 2 rows; distinct by op list.",
+        "late-bound operation sequences on library-created packages weighted towards updates that assign primary-key columns (to a constant, so that rows collide; to values that reorder), batch inserts in arbitrary order, delete/insert cycles, nullable and empty-string keys, composite keys, database code-page switches (also between two saves with no other change), with reopen points; invariant after every step and after every reopen, for every user table, from the API-reported schema and rows alone: key tuples pairwise distinct (modulo ''==null), rows ascending, every cell valid for its column by the reference validity predicate. Non-trivial = the sequence contains an update of a key column or a batch insert of >= 2 rows; distinct by op list.",
     );
     rep.assumptions.push("a null read back in a non-nullable string column counts as the (valid) empty string".into());
     let mut st = Stats::new();
